@@ -32,6 +32,7 @@
    stdlib lists only (association lists; first binding wins, [set] replaces in place). *)
 From Coq Require Import NArith List Bool.
 From DvcData Require Import Base.Val.
+From DvcData Require Export Model.StateDbBase.
 Import ListNotations.
 Open Scope N_scope.
 
@@ -66,11 +67,9 @@ Definition has {A} (k : path) (l : list (path * A)) : bool :=
   match lookup k l with Some _ => true | None => false end.
 
 (* ---------------------------------------------------------------- tokens, rows, files *)
-(* GEN-CANDIDATE: hashfile/state.py:_checksum  (field list [ino, mtime, size]) *)
-Record token := { t_ino : N; t_mtime : N; t_size : N }.
-
-Definition token_eqb (a b : token) : bool :=
-  (t_ino a =? t_ino b) && (t_mtime a =? t_mtime b) && (t_size a =? t_size b).
+(* [token] = (ino, mtime, size) and [token_eqb] come from Model/StateDbBase.v (shared with the generated
+   Gen/State.v); Proofs/StateDbProofs.v proves that the field list is the one hashfile/state.py:_checksum
+   reads ([tie_checksum_fields]) and that [token_eqb] is the generated checksum comparison. *)
 
 (* the JSON value of a row: {"version", "checksum", "size", "hash_info": {name: value}} *)
 Record row := { r_version : option N; r_tok : token; r_size : N; r_alg : name; r_val : oid }.
@@ -87,7 +86,8 @@ Definition or_info (info : option token) (fs : fsview) (p : path) : option token
   match info with Some i => Some i | None => fs_info fs p end.
 
 (* ---------------------------------------------------------------- State._get *)
-(* GEN-CANDIDATE: hashfile/state.py:State._get
+(* hashfile/state.py:State._get  (hand-written; [tie_State__get] in Proofs/StateDbProofs.v proves it equal to
+   the translated Gen/State.v:State__get)
      try: entry = json_loads(raw)  except ValueError: return None
      actual = _checksum(info)
      if entry["checksum"] != actual: return None
@@ -127,7 +127,7 @@ Definition st_get (db : statedb) (local : bool) (fs : fsview) (p : path) (info :
   end.
 
 (* ---------------------------------------------------------------- batched, get_many *)
-(* GEN-CANDIDATE: compat.py:batched
+(* compat.py:batched  ([tie_batched]: equal to the generated batched_gen)
      it = iter(iterable)
      while batch := tuple(islice(it, n)): yield batch
    fuelled by the length of the list (enough for n >= 1, see batched_concat) *)
@@ -289,7 +289,7 @@ Section WithDigest.
   Definition is_dir_entry (e : ientry) : bool :=
     match i_meta e with Some m => m_isdir m | None => false end.
 
-  (* GEN-CANDIDATE: index/diff.py:_diff_meta   (cmp_key is None for update())
+  (* index/diff.py:_diff_meta   (cmp_key is None for update(); [tie_diff_meta]: equal to the generated Gen/IDiff.v:diff_meta)
        if old is None and new is not None: return ADD
        if old is not None and new is None: return DELETE
        if cmp_key is None and old != new: return MODIFY
